@@ -5,7 +5,12 @@ import (
 )
 
 func mergeDocs(doc, patch *Document) error {
-	merged, err := merge(doc.Data, patch.Data)
+	patchData, err := deepClone(patch.Data)
+	if err != nil {
+		return err
+	}
+
+	merged, err := merge(doc.Data, patchData)
 	if err != nil {
 		return err
 	}
